@@ -48,6 +48,9 @@ CHECKS = {
  "C11": dict(engine="mirsmt", technique="SMT over the MIR of run_transport's start-up path for every buffer configuration (reduced scope); native replay by starting the exporter and reading from a client socket",
     text="the transport thread reaches its event loop without panicking for buffer_size None and Some(n), n <= 2^24",
     note="reduced claim: the mio event loop, client connect/stall/close sequences, frame streaming and delivery/ordering guarantees are NOT covered (they need a running process)", ref="§4 C11"),
+ "C18": dict(engine="mirsmt", technique="SMT decision tables (z3 cross-checked by cvc5) generated from the MIR of HttpListeningExporter::check_tcp_allowed (+closures), the compiler-generated state machine of handle_http_request, and PrometheusBuilder::add_allowed_address; counterexamples replayed against a real scrape endpoint (raw HTTP/1.1 from chosen 127.0.0.0/8 source addresses)",
+    text="allowlist None or 0..3 networks, any peer address: served iff no allowlist or the peer lies in some listed network (unknown peer refused); a refused peer gets 403 with the default empty body and PrometheusHandle::render is never called for it; /health returns 'OK', every other path the value of render() for this request; add_allowed_address accepts plain addresses and CIDR subnets and rejects anything else",
+    note="reduced claim: hyper/tokio (request parsing, garbage/half-open/reset connections, concurrent scrapers, the bytes on the wire) are NOT covered; IpNet::contains / from_str by their documented contracts", ref="§4 C18"),
 }
 NA = {}
 ids = [json.loads(l)["id"] for l in open(os.path.join(V, "properties.jsonl"))]
